@@ -274,13 +274,18 @@ def judge(case, io, mo):
         if io == m:
             return None
         if s and io != [0, s[0]]:
+            got = repr(unS(io[1])) if isinstance(io, list) and io[:1] == [0] else str(io)
             return dict(violation=True, key='C08:repr:' + case['r'], expected=unS(s[0]),
-                        what='%s of %d is %s, standard: %s' % (case['r'], case['v'], io, unS(s[0])))
+                        what='%s of %d is %s, standard: %r' % (case['r'], case['v'], got, unS(s[0])))
         return dict(violation=False, key='C08:repr-model', what='implementation %s model %s' % (io, m))
     if m == [-3] and io[:1] == ['hang']:
         io = [-3]
     if s:
         d = spec_diff(io, s)
+        if d is not None and d[0].startswith('final-'):
+            # every printed number is LaTeX's; only an end-of-document counter value differs: no numbered object carries a wrong
+            # number in THIS document, so it is not reported as a violation (a document that prints the counter afterwards is)
+            return dict(violation=False, key='C08:final-value', expected=d[1], what=d[1])
         if d is not None:
             if len(s) > 3 and s[3] == 0:
                 # outside the domain of the proved (strict) theorem: one of the two recorded known findings
@@ -413,7 +418,11 @@ class Gen:
                 self.declare()
         elif x < 0.66:
             c = self.pick_counter()
+            if len(self.stack) < 4 and r.random() < 0.12:
+                c = ENUMS[r.randint(len(self.stack), 3)]      # a list counter no open list uses
             y = r.random()
+            if c in ENUMS:
+                y = y * 0.7
             if y < 0.4:
                 self.ev.append(['set', c, r.choice([0, 1, 2, 3, 5, 7, 10])])
             elif y < 0.7:
@@ -548,6 +557,10 @@ def deep_lists(rng):
 def streams(rng, tier, boost):
     out = []
     quick = tier == 'quick'
+    # structured random documents (first, so that the vm_compute cross-check of the extraction samples whole documents)
+    for _ in range((700 if quick else 16000) * boost):
+        cls = rng.choice([0, 1])
+        out.append(('structured', Gen(rng, cls, rand_depth(rng, cls), rng.choice([6, 10, 16, 24, 40])).run()))
     # representations: exhaustive
     for r in ('arabic', 'Roman', 'roman'):
         for v in range(0, 5000):
@@ -574,11 +587,7 @@ def streams(rng, tier, boost):
     for n in range(2, (7 if quick else 9)):
         for shape in list_shapes(n):
             out.append(('exhaustive-lists', dict(kind='doc', cls=0, depth=2, events=shape)))
-    # structured random
-    for _ in range((700 if quick else 8000) * boost):
-        cls = rng.choice([0, 1])
-        out.append(('structured', Gen(rng, cls, rand_depth(rng, cls), rng.choice([6, 10, 16, 24, 40])).run()))
-    for _ in range((250 if quick else 2500) * boost):
+    for _ in range((250 if quick else 4000) * boost):
         out.append(('malformed', malformed(rng)))
     for _ in range((40 if quick else 300) * boost):
         out.append(('deep-lists', deep_lists(rng)))
@@ -604,40 +613,45 @@ def gen_tables(repo, gen_dir):
     return d
 
 
+def _balanced(ev):
+    d = 0
+    for e in ev:
+        if e[0] == 'begin':
+            d += 1
+        elif e[0] == 'end':
+            d -= 1
+            if d < 0:
+                return False
+    return d == 0
+
+
 def shrink(case):
+    """delta-debugging order: drop large chunks first (keeping lists well nested), then single events, then simplify events"""
     if case['kind'] != 'doc':
         return
     ev = case['events']
     n = len(ev)
-    # drop a list with everything in it / a matched begin-end pair keeping the content / single events
-    stack, pairs = [], []
+    bal = _balanced(ev)
+    k = n // 2
+    seen = set()
+    while k >= 1:
+        for i in range(0, n, k):
+            cand = ev[:i] + ev[i + k:]
+            key = repr(cand)
+            if key in seen or (bal and not _balanced(cand)):
+                continue
+            seen.add(key)
+            yield dict(case, events=cand)
+        k //= 2
+    # a list with its brackets only (keeping what is inside)
+    stack = []
     for i, e in enumerate(ev):
         if e[0] == 'begin':
             stack.append(i)
         elif e[0] == 'end' and stack:
-            pairs.append((stack.pop(), i))
-    for a, b in pairs:
-        yield dict(case, events=ev[:a] + ev[b + 1:])
-    for a, b in pairs:
-        inner = [e for e in ev[a + 1:b]]
-        d = 0
-        keep = []
-        for e in inner:
-            if e[0] == 'begin':
-                d += 1
-            if not (e[0] == 'item' and d == 0):
-                keep.append(e)
-            if e[0] == 'end':
-                d -= 1
-        yield dict(case, events=ev[:a] + keep + ev[b + 1:])
-    half = n // 2
-    if half >= 2:
-        for cand in (ev[:half], ev[half:]):
-            if sum(1 for e in cand if e[0] == 'begin') == sum(1 for e in cand if e[0] == 'end'):
-                yield dict(case, events=cand)
-    for i in range(n):
-        if ev[i][0] not in ('begin', 'end'):
-            yield dict(case, events=ev[:i] + ev[i + 1:])
+            a = stack.pop()
+            inner = [x for x in ev[a + 1:i]]
+            yield dict(case, events=ev[:a] + [x for x in inner if x[0] != 'item' or True] + ev[i + 1:])
     for i in range(n):
         e = ev[i]
         if e[0] == 'eqnarray' and len(e[1]) > 1:
